@@ -361,3 +361,6 @@ def replay(case):
         return None if (res and res[0] == 'outside') else res
     finally:
         shutil.rmtree(scratch, ignore_errors=True)
+
+
+from props.c07_fuzz import fuzz_shard  # noqa: E402,F401  (task function of the thorough tier)
